@@ -305,6 +305,17 @@ func c08Scenario(sc *metaScn, idx int) {
 		if idx%2 == 0 {
 			sc.after(sc.do(b, "leave", nil, ""))
 			sc.after(sc.do(b, "setSelf", nil, "JRWA"))
+			// a participant with private data unsubscribes while the topic is not loaded; its next {sub} loads the topic
+			// and re-creates the subscription: the stored row keeps its private data
+			sc.after(sc.do(a, "setPrivate", nil, "kept across the unsubscription"))
+			sc.after(sc.do(a, "unsub", nil, ""))
+			sc.w.e.vfQuiesce()
+			if sc.w.e.vfWaitUnloaded(sc.canon) {
+				r.Hit("p2p_resubscription_loads_topic")
+				sc.after(sc.do(a, "sub", nil, ""))
+			} else {
+				r.Inconclusive("c08: p2p topic not unloaded after the last attached participant unsubscribed")
+			}
 		} else {
 			// a participant with non-zero marks unsubscribes and subscribes again while the other one keeps the
 			// topic in memory: the store re-creates the row, the cached record is un-deleted
